@@ -65,7 +65,6 @@ var roSeed = [][]string{
 	{"SET", "k2", "a", "FIELD", "g", "2.5", "BOUNDS", "0", "0", "5", "5"},
 	{"SET", "k2", "j", "STRING", `{"a":{"b":1},"n":2}`},
 	{"SETCHAN", "ch1", "NEARBY", "k1", "FENCE", "POINT", "10", "20", "1000"},
-	{"SETHOOK", "hk1", "http://127.0.0.1:1/c18", "NEARBY", "k3", "FENCE", "POINT", "80", "170", "1"},
 }
 
 // what the seed holds: the targets an effective write is aimed at
@@ -227,8 +226,9 @@ func roArgs(rt *rapid.T, label string) (call []string, prelude [][]string) {
 	case "delchan", "delhook":
 		a = []string{sf(rt, "hook", "ch1", "ch2", "hk1")}
 		if targeted {
-			a[0] = map[string]string{"delchan": "ch1", "delhook": "hk1"}[label]
-			if rapid.Bool().Draw(rt, "freshhook") {
+			a[0] = map[string]string{"delchan": "ch1", "delhook": "hk9"}[label]
+			// the seed holds channel ch1 but no hook (hooks make every reseed slow): hooks always come from the prelude
+			if label == "delhook" || rapid.Bool().Draw(rt, "freshhook") {
 				// a second one made by the prelude
 				a[0] = map[string]string{"delchan": "ch9", "delhook": "hk9"}[label]
 				if label == "delchan" {
@@ -242,6 +242,9 @@ func roArgs(rt *rapid.T, label string) (call []string, prelude [][]string) {
 		a = []string{sf(rt, "hookpat", "*", "ch*", "hk*")}
 		if targeted {
 			a[0] = sf(rt, "hookpat", "*", map[string]string{"pdelchan": "ch*", "pdelhook": "hk*"}[label])
+			if label == "pdelhook" {
+				prelude = append(prelude, []string{"SETHOOK", "hk9", "http://127.0.0.1:1/c18b", "WITHIN", "k3", "FENCE", "BOUNDS", "80", "170", "81", "171"})
+			}
 		}
 	case "scan", "search":
 		a = []string{k()}
@@ -324,9 +327,9 @@ type roCase struct {
 	Label   string     `json:"label"`
 	Prelude [][]string `json:"prelude,omitempty"` // sent directly before the snapshot: makes the call effective
 	Call    []string   `json:"call"`
-	Variant string   `json:"variant"` // evalro | evalrosha
-	Style   string   `json:"style"`   // call | pcall
-	Args    string   `json:"args"`    // argv | literal
+	Variant string     `json:"variant"` // evalro | evalrosha
+	Style   string     `json:"style"`   // call | pcall
+	Args    string     `json:"args"`    // argv | literal
 }
 
 func (rc roCase) render() (src string, argv []string) {
